@@ -165,6 +165,9 @@ func c14Routing(c *Ctx) {
 			})
 			var bad []string
 			nCheck := 0
+			// (message functions explored inline: a path may yield a constant - the empty template with no arguments - so
+			// the parameters are accounted for over all paths together)
+			mentioned, needAll := map[string]bool{}, map[string]bool{}
 			lvK, _ := c.ConstVal(CorePath, n+"Level")
 			for _, sq := range seqs {
 				for _, t := range strings.Split(sq, " ; ") {
@@ -190,9 +193,15 @@ func c14Routing(c *Ctx) {
 							okM = true
 							for _, q := range fn.Params[1:] {
 								has := replaceWord(parts[1], PN(q), "\x00") != parts[1]
-								if has != need[PN(q)] {
+								if has && !need[PN(q)] {
 									okM = false
 								}
+								if has {
+									mentioned[PN(q)] = true
+								}
+							}
+							for q := range need {
+								needAll[q] = true
 							}
 						}
 						if !okL || !okM {
@@ -203,6 +212,11 @@ func c14Routing(c *Ctx) {
 							bad = append(bad, t)
 						}
 					}
+				}
+			}
+			for q := range needAll {
+				if !mentioned[q] {
+					bad = append(bad, "no path builds the message from "+q)
 				}
 			}
 			c.Check(!trunc && nCheck > 0 && len(bad) == 0, "R14.3", FStr(fn), "slots", fn.Pos(), "on every path of %s (helpers inline): Logger.Check gets the method's level and the message %v, and exactly %s is sweetened into fields (offending: %v)", n+suf, wantMsg, wantCtx, uniqSorted(bad))
